@@ -21,3 +21,6 @@ ASSUMPTIONS = [
     "the one-step reference is the library's own single update on a fresh cube (refinement of a history against one step); in addition single-parameter histories are compared with a tolerant absolute model of the implied shift (real-valued drift from the dispersion law / the linear period drift; the observed rotation must be within 1 bin, so any rounding convention passes)",
     "for mixed DM+period histories the 'equals a fresh cube' clause is not asserted (the DM shift in bins depends on the current period); rotation-only, idempotence, reported values and return-to-fold are",
 ]
+
+# dimensions added in seeded rounds 6 and 7
+PROBES = list(PROBES) + ["derived-cube-made-in-mid-history", "derived-cube-retuned", "read-only-cube-refused"]
